@@ -28,6 +28,9 @@ class Obj:
     origin: str | None = None  # id of the object it was copied from
 
 
+NONE = "<None>"  # binding of a parameter that is None at this (inlined) call
+
+
 @dataclass
 class Saved:
     """A value of obj.var captured in a local (``copy`` says whether it was copied)."""
@@ -356,12 +359,27 @@ class StepExecutor:
             raise AnalysisError("inlining depth exceeded")
         ps = callee.params[1:]
         new_env = {}
-        for p, a in zip(ps, c.args):
+
+        def bind(a):
             o = self.obj_of(a, env)
-            new_env[p] = o if o is not None else self.time_expr(a, env)
+            if o is not None:
+                return o
+            if isinstance(a, ast.Name) and isinstance(env.get(a.id), Saved):
+                return env[a.id]
+            if isinstance(a, ast.Constant) and a.value is None:
+                return NONE
+            return self.time_expr(a, env)
+
+        # parameters with a None default that the call does not supply
+        fa = callee.node.args
+        pos = [x.arg for x in fa.posonlyargs + fa.args]
+        for name, d in list(zip(pos[len(pos) - len(fa.defaults):], fa.defaults)) + [(k.arg, d) for k, d in zip(fa.kwonlyargs, fa.kw_defaults) if d is not None]:
+            if isinstance(d, ast.Constant) and d.value is None:
+                new_env[name] = NONE
+        for p, a in zip(ps, c.args):
+            new_env[p] = bind(a)
         for kw in c.keywords:
-            o = self.obj_of(kw.value, env)
-            new_env[kw.arg] = o if o is not None else self.time_expr(kw.value, env)
+            new_env[kw.arg] = bind(kw.value)
         evs = self.exec_body(callee, callee.body_without_docstring(), new_env)
         self.depth -= 1
         return evs
@@ -420,10 +438,23 @@ class StepExecutor:
             raise AnalysisError(f"{f.qualname}: fixed-point function sets {set_vars}, solver result assigned to {target_vars}")
         e = ret.value
         init_name = norm(init_expr)
+        # the solver's initial guess: the current value of the updated variable(s), or something else
+        gv = env.get(init_expr.id) if isinstance(init_expr, ast.Name) else None
+        if isinstance(gv, Saved) and gv.obj == obj.id and (gv.var in set_vars or gv.var == "concat"):
+            self.last_guess = "current"
+        elif isinstance(gv, Saved) and gv.obj == "?" and gv.var == "concat":
+            self.last_guess = "current"
+        else:
+            self.last_guess = f"foreign:{init_name}" + (f"={gv.obj}.{gv.var}" if isinstance(gv, Saved) else "")
         if len(set_vars) == 1:
             d, coeff, rest = self.linear_update(e, env, f)
-            if not rest.equals(Rat.sym(init_name)):
-                raise AnalysisError(f"{f.qualname}: fixed-point map is not `{init_name} + c*deriv`: {norm(e)[:60]}")
+            syms = rest.symbols()
+            base_ok = False
+            if len(syms) == 1 and rest.equals(Rat.sym(next(iter(syms)))):
+                bv = env.get(next(iter(syms)))
+                base_ok = isinstance(bv, Saved) and bv.obj == obj.id and bv.var == set_vars[0]
+            if not base_ok:
+                raise AnalysisError(f"{f.qualname}: fixed-point map is not `<value of {set_vars[0]} at entry> + c*deriv`: {norm(e)[:60]}")
             return set_vars, (d,), (coeff,)
         # concatenated form: init + np.concatenate([c1*D1(X), c2*D2(X)])
         if isinstance(e, ast.BinOp) and isinstance(e.op, ast.Add):
@@ -460,6 +491,10 @@ class StepExecutor:
             if isinstance(inner, ast.Attribute) and self.obj_of(inner.value, env) is not None:
                 env[t.id] = Saved(self.obj_of(inner.value, env).id, inner.attr, True)
                 return []
+        # v = w with w a saved value (alias of a saved value)
+        if isinstance(t, ast.Name) and isinstance(v, ast.Name) and isinstance(env.get(v.id), Saved):
+            env[t.id] = env[v.id]
+            return []
         # v = X.var  (alias) / v = np.concatenate([X.pos, X.mom])
         if isinstance(t, ast.Name) and isinstance(v, ast.Attribute) and self.obj_of(v.value, env) is not None:
             env[t.id] = Saved(self.obj_of(v.value, env).id, v.attr, False)
@@ -482,7 +517,7 @@ class StepExecutor:
                     raise AnalysisError(f"{f.qualname}: fixed-point function not a local def")
                 # _solve_fixed_point must forward to the configured solver
                 vs, ds, cs = self.fixed_point_update(f, local_funcs[fn.id], solver_call.args[1], env, vars_, o)
-                return [Event("update", o.id, "impl", vs, ds, cs, node=st, func=f.qualname)]
+                return [Event("update", o.id, "impl", vs, ds, cs, node=st, func=f.qualname, info={"guess": self.last_guess})]
             if isinstance(v, ast.Call) and call_name(v) == "self.system.project_onto_cotangent_space" and vars_ == ("mom",):
                 return [Event("project", o.id, node=st, func=f.qualname)]
             raise AnalysisError(f"{f.qualname}: state assignment outside the step grammar: {norm(st)[:70]}")
@@ -562,6 +597,11 @@ class StepExecutor:
             elif isinstance(rv, tuple) and rv and rv[0] == "norm":
                 info.update(norm_terms=rv[1], op=type(t.ops[0]).__name__, bound=norm(l), side="right")
             return [Event("check", node=st, func=f.qualname, info=info)]
+        # `if p is None:` / `if p is not None:` on a parameter whose binding is known at this inlined call
+        if isinstance(t, ast.Compare) and len(t.ops) == 1 and isinstance(t.left, ast.Name) and isinstance(t.comparators[0], ast.Constant) and t.comparators[0].value is None and t.left.id in env and isinstance(t.ops[0], (ast.Is, ast.IsNot)):
+            is_none = env[t.left.id] is NONE or env[t.left.id] == NONE
+            take = is_none if isinstance(t.ops[0], ast.Is) else not is_none
+            return self.exec_body(f, st.body if take else st.orelse, env, local_funcs)
         # conditional pre-evaluation etc.: both arms must be free of state-changing events
         a = self.exec_body(f, st.body, dict(env), local_funcs)
         b = self.exec_body(f, st.orelse, dict(env), local_funcs) if st.orelse else []
